@@ -666,6 +666,9 @@ Qed.
 (* ---------------------------------------------------------------------------------------------- *)
 (* the top level *)
 
+Lemma set_stack_env s e : set_stack [] (with_env s e) = Ok (tt, with_env s []).
+Proof. reflexivity. Qed.
+
 Lemma top_stmt fuel s : wf_top s = true ->
   forall sts, stmt_r fx fuel s (with_env sts []) =
               match stmt_s fuel [] s sts with
@@ -710,14 +713,11 @@ Proof.
       fold (with_env st1 [[(stack_begin_name (i_name i), st_next sts)]]).
       rewrite !bind_eq.
       assert (Hne : env_flat [[(stack_begin_name (i_name i), st_next sts)]] <> []) by discriminate.
-      pose proof (IHe _ value Hw Hne st1) as Hx. cbv beta in Hx.
-      change (expr_r fx f value (with_env st1 [[(stack_begin_name (i_name i), st_next sts)]]))
-        with (expr_r fx f value (with_env st1 [[(stack_begin_name (i_name i), st_next sts)]])) in Hx.
-      rewrite Hx. clear Hx.
+      pose proof (IHe _ value Hw Hne st1) as Hx. unfold scope in *. rewrite Hx. clear Hx.
       destruct (expr_s f [[(stack_begin_name (i_name i), st_next sts)]] value st1) as [[y s1]| | |];
         cbn [on_env]; try reflexivity.
-      rewrite !bind_eq. unfold set_stack at 1. cbv beta iota. cbn [st_ns st_vars st_next st_n2f with_env].
-      fold (with_env s1 []). rewrite !bind_eq. unfold lift at 1. unfold lookup_in at 1. unfold lift at 1.
+      rewrite !bind_eq. rewrite set_stack_env. cbv beta iota. rewrite !bind_eq.
+      unfold lift at 1. unfold lookup_in at 1. unfold lift at 1.
       destruct (lookup (with_env s1 []) (i_name i) sp) as [v| | |]; try reflexivity.
       unfold ret at 1. cbv beta iota. rewrite !bind_eq. unfold lift at 1. unfold ty_in, lift.
       destruct (ty_r (with_env s1 []) t) as [t'| | |]; reflexivity.
